@@ -138,6 +138,69 @@ static void c18_run_large(const Case &c, Result &r) {
   r.sample = c.str();
 }
 
+// name churn: many rounds of adding named columns/rows and deleting them again on one problem (what a column
+// generation host does); the name tables compact and regrow their string buffers along the way
+static void c18_gen_churn(Tape &t, Case &c) {
+  Op o("churn");
+  o.I(5 + (int)t.below(60)).I(1 + (int)t.below(8)).I(1 + (int)t.below(40)).I(t.below(4)).I(t.below(4)).I(t.below(1000));
+  // rounds, adds per round, name length, what (0 cols, 1 rows, 2 both, 3 cols with a solve now and then), keep every k-th, salt
+  c.ops.push_back(o);
+}
+static void c18_run_churn(const Case &c, Result &r) {
+  if (c.ops.empty() || c.ops[0].k != "churn" || c.ops[0].i.size() < 6) { r.verdict = DISCARD; return; }
+  const Op &o = c.ops[0];
+  int rounds = (int)o.i[0], per = (int)o.i[1], len = (int)o.i[2], what = (int)o.i[3] % 4, keep = (int)o.i[4] % 4;
+  if (rounds < 1 || rounds > 400 || per < 1 || per > 50 || len < 1 || len > 200) { r.verdict = DISCARD; return; }
+  mpq_QSprob p = mpq_QScreate_prob("churn", QS_MIN);
+  if (!p) { r.fail("create-failed", "QScreate_prob returned NULL"); return; }
+  Q zero(0), one(1), ten(10);
+  int rc = mpq_QSnew_col(p, one.get_mpq_t(), zero.get_mpq_t(), ten.get_mpq_t(), "base");
+  rc |= mpq_QSnew_row(p, one.get_mpq_t(), 'G', "baserow");
+  rc |= mpq_QSchange_coef(p, 0, 0, one.get_mpq_t());
+  long added = 0, deleted = 0;
+  for (int rd = 0; rd < rounds && rc == 0; rd++) {
+    std::vector<std::string> names;
+    for (int k = 0; k < per; k++) {
+      std::string nm = strprintf("n%d_%d_", rd, k);
+      while ((int)nm.size() < len) nm += (char)('a' + (nm.size() * 7 + (size_t)rd) % 26);
+      names.push_back(nm);
+    }
+    bool cols = what != 1, rows = what == 1 || what == 2;
+    if (cols) for (auto &nm : names) { int ind[1] = {0}; mpq_t v[1]; mpq_init(v[0]); mpq_set_si(v[0], 1 + (long)(nm.size() % 3), 1); rc |= mpq_QSadd_col(p, 1, ind, v, one.get_mpq_t(), zero.get_mpq_t(), ten.get_mpq_t(), ("c" + nm).c_str()); mpq_clear(v[0]); added++; }
+    if (rows) for (auto &nm : names) { rc |= mpq_QSnew_row(p, zero.get_mpq_t(), 'L', ("r" + nm).c_str()); added++; }
+    if (what == 3 && rd % 7 == 3) { int st = 0; mpq_QSopt_dual(p, &st); }
+    // delete what was added in this round, except every keep-th name (so the tables also grow slowly)
+    for (size_t k = 0; k < names.size(); k++) {
+      if (keep && (int)(k % (size_t)(keep + 1)) == keep) continue;
+      if (cols) { rc |= mpq_QSdelete_named_column(p, ("c" + names[k]).c_str()); deleted++; }
+      if (rows) { rc |= mpq_QSdelete_named_row(p, ("r" + names[k]).c_str()); deleted++; }
+    }
+  }
+  if (rc) r.fail("churn:valid-call-rejected", "a valid add/delete of a named row or column was rejected during the churn");
+  // every surviving name must still be found under its own index
+  if (r.verdict == PASS) {
+    int n = mpq_QSget_colcount(p), m = mpq_QSget_rowcount(p);
+    std::vector<char *> cn((size_t)n + 1, nullptr), rn((size_t)m + 1, nullptr);
+    if (mpq_QSget_colnames(p, cn.data()) == 0) {
+      for (int j = 0; j < n && r.verdict == PASS; j++) { int idx = -2; mpq_QSget_column_index(p, cn[j], &idx); if (idx != j) r.fail("churn:name-lookup", strprintf("column %d named %s is looked up as index %d", j, cn[j], idx)); }
+      for (int j = 0; j < n; j++) mpq_QSfree(cn[j]);
+    }
+    if (mpq_QSget_rownames(p, rn.data()) == 0) {
+      for (int i = 0; i < m && r.verdict == PASS; i++) { int idx = -2; mpq_QSget_row_index(p, rn[i], &idx); if (idx != i) r.fail("churn:name-lookup", strprintf("row %d named %s is looked up as index %d", i, rn[i], idx)); }
+      for (int i = 0; i < m; i++) mpq_QSfree(rn[i]);
+    }
+  }
+  int st = 0;
+  mpq_QSopt_dual(p, &st);
+  mpq_QSfree_prob(p);
+  QSexactClear();
+  r.label(strprintf("churn:%s:rounds%s", what == 0 ? "cols" : what == 1 ? "rows" : what == 2 ? "both" : "cols+solve", rounds >= 20 ? ">=20" : "<20"));
+  r.label(added * len >= 4000 ? "churn:name-bytes>=4000" : "churn:name-bytes<4000");
+  r.nontrivial = deleted >= 20;
+  r.canon = c.str();
+  r.sample = c.str();
+}
+
 static std::string c18_context(const Case &c) {
   for (auto &o : c.ops) if (o.k == "bad" && o.i.size() >= 2) return strprintf("probe=%ld", o.i[0]);
   return "";
@@ -155,6 +218,9 @@ void register_c18() {
   Property l = {"C18", "large", c18_gen_large, c18_run_large, 1, 300, true};
   l.keep_going = true;
   register_property(l);
+  Property ch = {"C18", "churn", c18_gen_churn, c18_run_churn, 1, 120, true};
+  ch.keep_going = true;
+  register_property(ch);
   (void)c18_context;
 }
 
